@@ -22,12 +22,26 @@ def _lazy(mod):
     return fn
 
 
-for _p, _m in (("C18", "c18"),):
+for _p, _m in (("C18", "c18"), ("C17", "c17"), ("C20", "c20")):
     REGISTRY[_p] = _lazy(_m)
+
+
+MODS = {"C18": "c18", "C17": "c17", "C20": "c20", "C15": "c15"}
 
 
 def replay(prop, payload):
     """Re-run a replay file against the current tree: exit 1 + VIOLATION if it still fails."""
+    import importlib
+    if prop in MODS:
+        try:
+            m = importlib.import_module("lib." + MODS[prop])
+        except ImportError:
+            m = None
+        if m is not None and hasattr(m, "replay"):
+            return m.replay(payload)
+        if m is not None and prop == "C17" and "row" in payload:
+            r = payload["row"]
+            return m.replay_row(r["kind"], r["s"], r["a"], r["N"], r["st"], payload.get("std", "c++17")) or 0
     if "script" in payload and "config" in payload and payload["config"] in __import__("lib.vecgen", fromlist=["CONFIGS"]).CONFIGS:
         res = vecrun.run_scripts([(payload["config"], ["H replay"] + payload["script"])])
         for name, hs, err, berr in res:
